@@ -44,7 +44,8 @@ AI_ENVS = [
 # Fully configured clients are NOT generated: in this sandbox constructing openai.OpenAI / AzureOpenAI raises
 # TypeError(proxies) from an openai/httpx version mismatch of the environment, unrelated to the code under test.
 AI_OK_ENVS = [{}, {"CODEMODDER_AZURE_OPENAI_API_KEY": "", "CODEMODDER_AZURE_OPENAI_ENDPOINT": ""},
-              {"CODEMODDER_AZURE_LLAMA_API_KEY": "", "CODEMODDER_AZURE_LLAMA_ENDPOINT": ""}, {"CODEMODDER_OPENAI_API_KEY": ""}]
+              {"CODEMODDER_AZURE_LLAMA_API_KEY": "", "CODEMODDER_AZURE_LLAMA_ENDPOINT": ""}, {"CODEMODDER_OPENAI_API_KEY": ""},
+              {"CODEMODDER_AZURE_OPENAI_API_KEY": ""}, {"CODEMODDER_AZURE_LLAMA_ENDPOINT": ""}]  # set-but-empty alone = unset
 RESULT_OPTS = ["--sarif", "--sonar-issues-json", "--sonar-hotspots-json", "--defectdojo-findings-json"]
 REPORT_FAULTS = ["enoent-parent", "eisdir", "open-eacces", "open-erofs", "open-enospc", "enospc-on-write", "short-write", "eio-on-write"]
 
